@@ -22,7 +22,8 @@ RULE = ('streams: the shipped real logs and generated multi-connection streams w
         'status); non-trivial = run-mode execution with more than one chunk or a non-zero status')
 ASSUMPTIONS = ['C.UTF-8 locale for all three modes', 'the reference display is the in-process pipeline (validated against ground truth by C08)',
                'a process exceeding its time limit is inconclusive, never a violation']
-REQUIRED = ['backends/libwayland_debug_output/parse.py:Parser.parse_all']
+REQUIRED = ['backends/libwayland_debug_output/parse.py:Parser.parse_all', 'backends/libwayland_debug_output/runner.py:run_program',
+            'backends/libwayland_debug_output/runner.py:_Subprocess.run']   # (main.py itself runs in child processes: decided by what those do)
 HELPERS = os.path.join(os.path.dirname(os.path.dirname(os.path.abspath(__file__))), 'helpers')
 MARKER = 'CHILD-STDOUT-MARKER-7f3a\n'
 WORDS = ['prog', 'arg1', '-f', 'x', '-r', '--run', '-g', '--gdb', '--', '', 'a b', '-Cr', '-l', 'file', '"q"', 'back\\n', "'s'", 'żółć', '-p', '--supress', '-b', '*']
